@@ -88,6 +88,12 @@ class Obligation:
                 self.solver, self.time_s, self.status = res.solver + "(pointwise)", res.time_s, "discharged"
                 return self.status
         fs = self.pc if self.goal is False else self.pc + [z3.Not(self.goal)]
+        if getattr(self, "strings_first", False):
+            # pure string lemmas: cvc5's string solver first (z3's seq solver is unstable on these)
+            r5 = smt._cvc5_check(smt.to_smt2(fs), timeout_ms)
+            if r5 == "unsat":
+                self.solver, self.time_s, self.status = "cvc5", 0.0, "discharged"
+                return self.status
         res = smt.check_sat(fs, timeout_ms=timeout_ms, seed=seed)
         tries = 0
         while res.status == "unknown" and tries < 2:
